@@ -1,9 +1,17 @@
 """Reference models for C09 (focal statistics, focal mean, convolution, hotspots).
 
 Everything here is written from the property statement, in float64 on the
-float32-cast data, with a shift-and-stack formulation (one NaN-padded copy of
-the raster per kernel position) that shares no code and no loop structure with
+ORIGINAL data, with a shift-and-stack formulation (one NaN-padded copy of the
+raster per kernel position) that shares no code and no loop structure with
 xrspatial's per-cell window walk.
+
+Precision: the statement fixes neither the working precision nor the dtype of
+the window / result.  Every tolerance below therefore accepts any evaluation
+that (a) may round each input value once to single precision (eps32*|x| per
+value entering the statistic), (b) evaluates the statistic in single OR double
+precision in any order, and (c) may round the result once to single precision.
+Statistics that return an input value (min, max, a reducer returning a window
+entry) are accepted as the value itself or its float32 rounding - nothing else.
 
 Conventions
 -----------
@@ -20,8 +28,12 @@ HOT_LEVELS = (0, 90, 95, 99)
 HOT_THRESHOLDS = (1.65, 1.96, 2.58)
 
 
+def f64(a):
+    return np.asarray(a).astype(np.float64)
+
+
 def f32(a):
-    """The data as the focal tools see it: cast to float32 (held in float64)."""
+    """The data rounded once to single precision (held in float64)."""
     return np.asarray(a).astype(np.float32).astype(np.float64)
 
 
@@ -44,37 +56,42 @@ def window_stack(a64, mask):
     return np.stack(layers)
 
 
-def window_stats(a, kernel):
-    """Brute-force window statistics.
+def window_stats(a, kernel, member=None):
+    """Brute-force window statistics in float64 on the original data.
 
     Returns (ref, tol, info): dicts stat -> (H, W) float64 arrays; info holds the per-cell count of
-    valid cells, the per-cell number of NaN cells under 1-entries, the selection mask.
+    valid cells, the per-cell number of NaN cells under 1-entries, the selection mask, and `alt`:
+    stat -> second acceptable exact value (float32 rounding of the reference) for min / max.
     Empty window => NaN for every statistic except sum (0): the NumPy nan-function semantics.
+    `member` overrides the membership mask (default kernel == 1).
 
-    Tolerances are forward error bounds for ANY evaluation order in single precision
-    (n valid cells, u = eps32/2):  sum: (n-1)u.S|x| + eps32|ref|   (DESIGN App. C "window sums", with the
-    factor 2 replaced by max(2, n/2) because a float32 accumulator over up to 121 cells is legitimate);
-    mean: that / n; min/max: exact (they are input values); range: one rounding;
-    var/std: propagated from the mean's bound dm with M = max|x - mean|.
+    Tolerances (n valid cells, S = sum|x|, fac = max(2, n/2)):
+      sum   (fac + 1) eps32 S + eps32 |ref|     any-order single-precision accumulation (DESIGN App. C "window sums" with the
+                                                factor 2 widened to n/2 for a float32 accumulator) + one rounding per input + result
+      mean  that / n
+      min / max   exact: the value or its float32 rounding
+      range eps32 (|max| + |min|) + eps32 |ref|
+      var / std   propagated: each deviation is off by at most e = dm + eps32 max|x|, M = max|x - mean|.
     """
-    x = f32(a)
+    x = f64(a)
     H, W = x.shape
-    mask = (np.asarray(kernel) == 1)
+    mask = (np.asarray(kernel) == 1) if member is None else np.asarray(member, bool)
     st = window_stack(x, mask)
     n_sel = st.shape[0]
-    ref, tol = {}, {}
+    ref, tol, alt = {}, {}, {}
     if n_sel == 0:
         nan = np.full((H, W), np.nan)
         for s in STATS:
             ref[s] = nan.copy()
             tol[s] = np.zeros((H, W))
         ref["sum"] = np.zeros((H, W))
-        return ref, tol, {"count": np.zeros((H, W), int), "nan_under": np.zeros((H, W), int), "mask": mask}
+        return ref, tol, {"count": np.zeros((H, W), int), "nan_under": np.zeros((H, W), int), "mask": mask, "alt": alt}
     valid = ~np.isnan(st)
     cnt = valid.sum(axis=0)
     z = np.where(valid, st, 0.0)
     s = z.sum(axis=0)
     sabs = np.abs(z).sum(axis=0)
+    amax = np.abs(z).max(axis=0)
     empty = cnt == 0
     cs = np.where(empty, 1, cnt)
     mean = np.where(empty, np.nan, s / cs)
@@ -85,15 +102,19 @@ def window_stats(a, kernel):
     std = np.sqrt(var)
     M = np.abs(dev).max(axis=0)
     fac = np.maximum(2.0, cnt / 2.0) * EPS32
-    ref["sum"], tol["sum"] = s, fac * sabs + EPS32 * np.abs(s) + TINY32
-    dm = fac * sabs / cs + EPS32 * np.abs(np.where(empty, 0.0, mean)) + TINY32
+    m0 = np.where(empty, 0.0, mean)
+    ref["sum"], tol["sum"] = s, (fac + EPS32) * sabs + EPS32 * np.abs(s) + TINY32
+    dm = (fac + EPS32) * sabs / cs + EPS32 * np.abs(m0) + TINY32
     ref["mean"], tol["mean"] = mean, dm
     ref["max"], tol["max"] = mx, np.zeros((H, W))
     ref["min"], tol["min"] = mn, np.zeros((H, W))
+    alt["max"], alt["min"] = f32(mx), f32(mn)
+    mx0, mn0 = np.where(empty, 0.0, mx), np.where(empty, 0.0, mn)
     ref["range"] = mx - mn
-    tol["range"] = EPS32 * np.abs(np.where(empty, 0.0, ref["range"])) + TINY32
+    tol["range"] = EPS32 * (np.abs(mx0) + np.abs(mn0)) + EPS32 * np.abs(mx0 - mn0) + TINY32
     v0 = np.where(empty, 0.0, var)
-    tv = 2 * M * dm + dm * dm + 3 * fac * M * M + EPS32 * v0 + TINY32
+    e = dm + EPS32 * amax
+    tv = 2 * M * e + e * e + 3 * fac * M * M + EPS32 * v0 + TINY32
     ref["var"], tol["var"] = var, tv
     s0 = np.sqrt(v0)
     with np.errstate(divide="ignore", invalid="ignore"):
@@ -102,17 +123,18 @@ def window_stats(a, kernel):
     # number of NaN raster cells under 1-entries (inside the raster)
     inside = window_stack(np.ones((H, W)), mask)
     nan_under = (np.isnan(st) & ~np.isnan(inside)).sum(axis=0)
-    return ref, tol, {"count": cnt, "nan_under": nan_under, "mask": mask}
+    return ref, tol, {"count": cnt, "nan_under": nan_under, "mask": mask, "alt": alt}
 
 
 def reducer_windows(a, kernel):
-    """Yield (y, x, w): w is the float32 (kh, kw) buffer the reducer contract describes - the raster value
-    (as float32) at positions where the kernel is 1 and the position lies inside the raster, NaN at every other position."""
-    x32 = np.asarray(a).astype(np.float32)
-    H, W = x32.shape
+    """Yield (y, x, w): w is the float64 (kh, kw) buffer the reducer contract describes - the raster value
+    at positions where the kernel is 1 and the position lies inside the raster, NaN at every other position.
+    (The dtype of the window the implementation hands over is not part of the contract.)"""
+    x = f64(a)
+    H, W = x.shape
     mask = (np.asarray(kernel) == 1)
     kh, kw = mask.shape
-    p = padded(x32, kh // 2, kw // 2, fill=np.float32(np.nan))
+    p = padded(x, kh // 2, kw // 2)
     for y in range(H):
         for xx in range(W):
             w = p[y:y + kh, xx:xx + kw].copy()
@@ -120,12 +142,16 @@ def reducer_windows(a, kernel):
             yield y, xx, w
 
 
-def close(out, ref, tol):
-    """Per-cell verdict: NaN pattern identical and |out - ref| <= tol. Returns boolean array of BAD cells."""
+def close(out, ref, tol, alt=None):
+    """Per-cell verdict: NaN pattern identical and |out - ref| <= tol (or out equal to `alt`, a second
+    acceptable exact value).  Returns boolean array of BAD cells."""
     out = np.asarray(out, dtype=np.float64)
     rn, on = np.isnan(ref), np.isnan(out)
     with np.errstate(invalid="ignore"):
-        bad = (rn != on) | (~rn & ~on & ~(np.abs(out - ref) <= tol))
+        good = np.abs(out - ref) <= tol
+        if alt is not None:
+            good |= (out == alt)
+        bad = (rn != on) | (~rn & ~on & ~good)
     return bad
 
 
@@ -144,7 +170,10 @@ def mean_passes(a, passes, excludes, band=1e-9):
     Returns (result, tol, ambiguous).  `ambiguous` is True when a value computed in a pass that is followed by
     another pass lies within `band` (relative) of a finite excluded value while its window sum is not exact in
     every summation order: then "is this intermediate cell excluded?" is a rounding decision and the case is not judged.
-    tol: a mean is a convex combination, so rounding errors do not amplify across passes; 64*eps64*max|x| absolute.
+    tol: float64 forward bound.  One pass: a sum of n <= 9 values in any association is off by at most (n-1) eps64/2 S|x|,
+    the quotient adds eps64/2 |ref|, so |error| <= n eps64 S|x| / n <= 9 eps64 max|x|; a mean is a convex combination, so
+    errors of earlier passes are carried, not amplified: <= 9 eps64 max|x| per pass, <= 27 eps64 max|x| for 3 passes;
+    64 eps64 max|x| is used.  Cells excluded from the start are compared bit for bit by the caller, not with this bound.
     """
     x = np.asarray(a).astype(np.float64)
     H, W = x.shape
@@ -180,26 +209,35 @@ def mean_passes(a, passes, excludes, band=1e-9):
 
 # ---------------------------------------------------------------- convolution
 
-def conv_full(a, kernel):
-    """Kernel-weighted sum over the FULL window. NaN wherever the window leaves the raster and wherever a NaN
-    lies anywhere in the window (also under a zero weight).  Returns (ref, tol, leaves, nan_in_window)."""
-    x = f32(a)
-    k = np.asarray(kernel, dtype=np.float64)
+def _conv_raw(x, k):
+    """x float64 (H, W) with NaN, k float64 weights.  Returns (sum with NaN taken as 0, sum of |k x|, leaves, nan_any, nan_nz):
+    leaves - window leaves the raster; nan_any - a NaN raster cell lies anywhere in the full window;
+    nan_nz - a NaN raster cell lies under a non-zero weight."""
     H, W = x.shape
     kh, kw = k.shape
-    hr, hc = kh // 2, kw // 2
-    st = window_stack(x, np.ones((kh, kw), bool))           # (kh*kw, H, W)
-    inside = ~np.isnan(window_stack(np.ones((H, W)), np.ones((kh, kw), bool)))
+    full = np.ones((kh, kw), bool)
+    st = window_stack(x, full)                                   # (kh*kw, H, W)
+    inside = ~np.isnan(window_stack(np.ones((H, W)), full))
     leaves = ~inside.all(axis=0)
-    nanwin = (np.isnan(st) & inside).any(axis=0)
+    isn = np.isnan(st) & inside
     kk = k.reshape(-1)[:, None, None]
+    nan_any = isn.any(axis=0)
+    nan_nz = (isn & (kk != 0)).any(axis=0)
     z = np.where(np.isnan(st), 0.0, st)
-    ref = (kk * z).sum(axis=0)
-    sabs = np.abs(kk * z).sum(axis=0)
-    ref = np.where(leaves | nanwin, np.nan, ref)
-    n = kh * kw
-    tol = max(2.0, n / 2.0) * EPS32 * sabs + EPS32 * np.abs(np.where(np.isnan(ref), 0.0, ref)) + TINY32
-    return ref, tol, leaves, nanwin & ~leaves
+    return (kk * z).sum(axis=0), np.abs(kk * z).sum(axis=0), leaves, nan_any, nan_nz
+
+
+def conv_full(a, kernel):
+    """Kernel-weighted sum over the FULL window in float64 on the original data. NaN wherever the window leaves
+    the raster and wherever a NaN lies anywhere in the window (also under a zero weight: 0 * NaN is NaN).
+    Returns (ref, tol, leaves, nan_in_window); tol = (max(2, n/2) + 1) eps32 S|k x| + eps32 |ref| for n = kh*kw taps."""
+    x = f64(a)
+    k = np.asarray(kernel, dtype=np.float64)
+    s, sabs, leaves, nan_any, _ = _conv_raw(x, k)
+    ref = np.where(leaves | nan_any, np.nan, s)
+    n = k.size
+    tol = (max(2.0, n / 2.0) + 1.0) * EPS32 * sabs + EPS32 * np.abs(np.where(np.isnan(ref), 0.0, ref)) + TINY32
+    return ref, tol, leaves, nan_any & ~leaves
 
 
 # ---------------------------------------------------------------- hotspots
@@ -210,36 +248,71 @@ def hot_class(z):
     return c if z > 0 else -c
 
 
-def hotspots_ref(a, kernel):
-    """Returns dict: z (float64, NaN where undefined), cls (expected class, int), band (scalar decision band),
-    decidable (bool array: |z| farther than band from every threshold), std, mean, exact_const."""
-    x = f32(a)
-    k = np.asarray(kernel, dtype=np.float64)
-    fin = x[~np.isnan(x)]
-    m = fin.mean()
-    dev = fin - m
-    sd = float(np.sqrt((dev * dev).mean()))
-    amax = float(np.abs(fin).max())
-    conv, _, _, _ = conv_full(a, k / k.sum())
-    out = {"mean": m, "std": sd, "amax": amax}
-    if fin.size and np.all(fin == fin[0]):
-        out["const"] = True
-        v = float(fin[0])
-        # a constant raster has std exactly 0 in single precision when n*v is exact (small dyadic v)
-        out["exact_const"] = bool(v * 1024 == np.floor(v * 1024) and abs(v) * fin.size < 8192)
-        return out
-    out["const"] = False
-    z = (conv - m) / sd
-    band = max(1e-4, 64 * EPS32 * (1.0 + amax / sd))
-    with np.errstate(invalid="ignore"):
-        az = np.abs(z)
-        dec = np.ones(z.shape, bool)
-        for t in HOT_THRESHOLDS:
-            dec &= ~(np.abs(az - t) <= band)
+def _classes(z):
     cls = np.zeros(z.shape, int)
     for idx in np.argwhere(~np.isnan(z)):
         cls[tuple(idx)] = hot_class(z[tuple(idx)])
-    out.update(z=z, cls=cls, band=band, decidable=dec | np.isnan(z))
+    return cls
+
+
+def _zscores(x, k):
+    """z of the neighbourhood mean against the global mean / population std of the valid cells (float64 arithmetic on x).
+    Returns (z strict, z lenient, mean, std): strict is NaN where the window leaves the raster or holds a NaN anywhere;
+    lenient is NaN only where it leaves the raster or a NaN lies under a non-zero weight."""
+    fin = x[~np.isnan(x)]
+    m = float(fin.mean())
+    dev = fin - m
+    sd = float(np.sqrt((dev * dev).mean()))
+    s, _, leaves, nan_any, nan_nz = _conv_raw(x, k / k.sum())
+    with np.errstate(divide="ignore", invalid="ignore"):
+        z = (s - m) / sd
+    return np.where(leaves | nan_any, np.nan, z), np.where(leaves | nan_nz, np.nan, z), m, sd
+
+
+def _const_exact(fin):
+    v = float(fin[0])
+    # the mean of n equal values reproduces the value (hence std == 0 exactly) in single and double precision when n*v is exact
+    return bool(v * 1024 == np.floor(v * 1024) and abs(v) * fin.size < 8192)
+
+
+def hotspots_ref(a, kernel):
+    """Class of every cell from the float64 z-score on the original data, with the decision made only where an
+    evaluation on the float32-rounded data agrees and both are farther than `band` from 1.65 / 1.96 / 2.58.
+
+    Returns dict with const / exact_const (zero global std), or z, cls, band, decidable (bool), undefined (strict z is NaN),
+    soft (the only NaNs in the window lie under zero weights: 0 and the class of the lenient z are both acceptable),
+    cls_soft, decidable_soft, mean, std.
+    band = max(1e-4, 64 eps32 (1 + max|x| / std)): forward bound of a single-precision evaluation of z.
+    """
+    k = np.asarray(kernel, dtype=np.float64)
+    x64, x32 = f64(a), f32(a)
+    fin64, fin32 = x64[~np.isnan(x64)], x32[~np.isnan(x32)]
+    c64 = bool(np.all(fin64 == fin64[0]))
+    c32 = bool(np.all(fin32 == fin32[0]))
+    out = {"const": c64 or c32, "mean": float(fin64.mean())}
+    if c64 or c32:
+        # decidable only if constant in both roundings and the constant sums exactly
+        out["exact_const"] = bool(c64 and c32 and _const_exact(fin64))
+        return out
+    z, zl, m, sd = _zscores(x64, k)
+    z2, zl2, _, sd2 = _zscores(x32, k)
+    amax = float(np.abs(fin64).max())
+    band = max(1e-4, 64 * EPS32 * (1.0 + amax / min(sd, sd2)))
+
+    def decide(za, zb):
+        ca, cb = _classes(za), _classes(zb)
+        with np.errstate(invalid="ignore"):
+            dec = (ca == cb)
+            for t in HOT_THRESHOLDS:
+                dec &= ~(np.abs(np.abs(za) - t) <= band) & ~(np.abs(np.abs(zb) - t) <= band)
+        return ca, dec
+
+    cls, dec = decide(z, z2)
+    cls_soft, dec_soft = decide(zl, zl2)
+    undefined = np.isnan(z)
+    soft = undefined & ~np.isnan(zl)
+    out.update(z=z, cls=cls, band=band, decidable=dec & ~undefined, undefined=undefined, soft=soft,
+               cls_soft=cls_soft, decidable_soft=dec_soft & soft, mean=m, std=sd)
     return out
 
 
